@@ -330,8 +330,13 @@ Definition c15_connect (toks : list (list N)) : list (list N) :=
    out: [status; X-Warning; tunnel intact] bytes-the-server-received *)
 Definition c15_front (toks : list (list N)) : list (list N) :=
   match toks with
-  | [ext; creds; method; st; code; atyp; tail_n; _] :: _ =>
+  | (ext :: creds :: method :: st :: code :: atyp :: tail_n :: _ :: dest_kind) :: _ =>
+    let dk := match dest_kind with k :: _ => k | [] => 0 end in
     let name := [101; 120; 97; 109; 112; 108; 101; 46; 111; 114; 103] in          (* example.org *)
+    let dest := if dk =? 1 then DIp [203; 0; 113; 9]
+                else if dk =? 2 then DIp [32; 1; 13; 184; 0; 0; 0; 0; 0; 0; 0; 0; 0; 0; 0; 7]
+                else if dk =? 3 then DIp [0; 0; 0; 0; 0; 0; 0; 0; 0; 0; 255; 255; 203; 0; 113; 9]
+                else DDomain name in
     let tok64 := [100; 84; 69; 54; 99; 68; 69; 61] in                              (* dTE6cDE= *)
     let a := if creds =? 0 then ANone
              else if ext =? 1 then AExt [(1, [108; 111; 99; 97; 108; 104; 111; 115; 116]); (2, [127; 0; 0; 1]);
@@ -342,9 +347,9 @@ Definition c15_front (toks : list (list N)) : list (list N) :=
                  else 9 :: [98; 111; 117; 110; 100; 46; 116; 115; 116] in
     let server := [5; method] ++ (if (method =? 2) || (method =? 128) then [1; st] else [])
                   ++ [5; code; 0; atyp] ++ bound ++ [31; 144] ++ tail in
-    let '(em, o) := connect a (DDomain name) 443 server in
+    let '(em, o) := connect a dest 443 server in
     let '(status, warn) := socks_result o in
-    let intact := match o with OTcp => if list_eqb N.eqb (connect_rest a (DDomain name) 443 server) tail then 1 else 0 | _ => 0 end in
+    let intact := match o with OTcp => if list_eqb N.eqb (connect_rest a dest 443 server) tail then 1 else 0 | _ => 0 end in
     [[status; warn; intact]; concat (map em_bytes em)]
   | _ => REJECT_TOK
   end.
@@ -884,7 +889,7 @@ Definition c18_get (hs : list (list N * list N)) (name : list N) : option (list 
 
 Definition c18_session (toks : list (list N)) : list (list N) :=
   match toks with
-  | (chan :: http2 :: _ :: rp :: st :: _) :: [kind] :: path :: hdrs :: _ =>
+  | (chan :: http2 :: _ :: rp :: st :: rest_cfg) :: [kind] :: path :: hdrs :: _ =>
     let hs := c18_headers (length hdrs) hdrs in
     let q := {| q_method := if kind =? 6 then 0 else if kind =? 7 then 1 else 2;
                 q_path := path;
@@ -893,7 +898,9 @@ Definition c18_session (toks : list (list N)) : list (list N) :=
                                     | Some v => list_eqb N.eqb v [110; 97; 118; 105; 103; 97; 116; 101] | None => false end;
                 q_upgrade := match c18_get hs [117; 112; 103; 114; 97; 100; 101] with Some _ => true | None => false end;
                 q_content_length := c18_get hs [99; 111; 110; 116; 101; 110; 116; 45; 108; 101; 110; 103; 116; 104] |} in
-    let s := {| s_speedtest := st =? 1; s_rp_mask := if rp =? 1 then Some [47; 114; 112] else None |} in
+    (* cfg[11] = 1: the reverse-proxy path mask is "/sp" instead of "/rp" *)
+    let mask := match nth_error rest_cfg 6 with Some 1 => [47; 115; 112] | _ => [47; 114; 112] end in
+    let s := {| s_speedtest := st =? 1; s_rp_mask := if rp =? 1 then Some mask else None |} in
     let ch := if chan =? 1 then ChPing else if chan =? 2 then ChSpeedtest else if chan =? 3 then ChReverseProxy
               else select (if http2 =? 1 then PH2 else PH1) s q in
     match ch with
